@@ -474,7 +474,6 @@ class C12(Property):
         tol = c["tol"]
         spec = self.make_spec(c)
         module = c.get("module", "ufoLib2")
-        nglyphs = len(spec["glyphs"])
         viols = []
         ctrs = {"fonts": 1, "compiles": 0, "glyph_states": 0}
         feat0 = {"part": c["part"], "tol": tol}
@@ -504,8 +503,6 @@ class C12(Property):
         if b0 is None or b1 is None:
             return Result(viols, ctrs, "no-baseline", substates=1, nontrivial=0)
         order = b0["order"]
-        names = list(spec["glyphs"])
-        nontrivial = 0
         for combo, o in obs.items():
             cn = combo_name(combo)
             f = dict(feat0, combo=cn)
@@ -577,7 +574,6 @@ class C12(Property):
                 ctrs["glyphs_calling_subrs_" + key] = o["callers"]
                 if o["nsubrs"]:
                     ctrs["fonts_with_subrs_" + key] = 1
-                nontrivial += o["callers"]
         for op in ("hlineto", "vlineto", "hhcurveto", "vvcurveto", "hvcurveto", "vhcurveto", "rcurveline",
                    "rlinecurve"):
             if op in b1["ops"]:
@@ -597,11 +593,12 @@ class C12(Property):
         if len(b0["layout"]) < 3:
             add("harness-no-layout-tables", feat0, tables=sorted(b0["layout"]))
         # every glyph of every CFF2 / specialised / subroutinised combination is encoded differently
-        nontrivial += len(order) * sum(1 for cmb in obs if cmb[0] >= 1 or cmb[2] == 2)
-        sig = [[len(v) for v in b0["draw"]], b0["hmtx"], sorted(combo_name(cmb) for cmb in obs),
-               {t: digest(v) for t, v in b0["layout"].items()}]
-        return Result(viols, ctrs, digest(sig), substates=len(order) * len(obs),
-                      nontrivial=min(nontrivial, len(order) * len(obs)))
+        nontrivial = len(order) * sum(1 for cmb in obs if cmb[0] >= 1 or cmb[2] == 2)
+        sig = [[len(v) for v in b0["draw"]], b0["hmtx"],
+               sorted((combo_name(cmb), o["tag"], o["nsubrs"], o["callers"], digest(o["hmtx"]),
+                       digest([len(v) for v in o["draw"]])) for cmb, o in obs.items()),
+               {t: digest(v) for t, v in b0["layout"].items()}, sorted((v["kind"], str(v["features"])) for v in viols)]
+        return Result(viols, ctrs, digest(sig), substates=len(order) * len(obs), nontrivial=nontrivial)
 
     def describe(self, h, b):
         c = dict(h[0])
